@@ -420,6 +420,42 @@ def joint_vs_sequential(ctx, pq, rng, sim):
                      {"doc": seq, "joint": joint})
 
 
+def passive_projected_marginal(rng):
+    """Finite-shot PassiveSimulator programs whose partial measurement goes through the "sample every mode, then project"
+    path (non-uniform loss, partial distinguishability): distinct full outcomes collide on the marginal outcome, so the bins
+    must be accumulated (a seeded change that overwrote them was missed before this workload existed)."""
+    from vf.gen import programs as G
+    from vf.gen import matrices as M
+
+    d = int(rng.integers(3, 6))
+    n = int(rng.integers(2, 5))
+    occ = G.number_state(rng, d, n)
+    cfg = {"hbar": 2.0, "cutoff": sum(occ) + 1}
+    variant = str(rng.choice(["loss", "lossy-interferometer", "distinguishable", "distinguishable-loss"]))
+    ins = []
+    if variant.startswith("distinguishable"):
+        ins.append({"t": "DistinguishableNumberState", "m": None, "p": {"occupation_numbers": occ, "particle_overlap": float(rng.choice([0.0, 0.4, 0.8]))}})
+    else:
+        ins.append({"t": "NumberState", "m": None, "p": {"occupation_numbers": occ}})
+    for _ in range(int(rng.integers(1, 4))):
+        g = G.gate(rng, str(rng.choice(["Interferometer", "Beamsplitter", "Beamsplitter5050", "MachZehnder"])), d)
+        if g is not None:
+            ins.append(g)
+    if variant in ("loss", "distinguishable-loss"):
+        ins.append({"t": "Loss", "m": [int(rng.integers(0, d))], "p": {"transmissivity": float(rng.choice([0.5, 0.8]))}})
+    elif variant == "lossy-interferometer":
+        T, sv = M.transmission_matrix(rng, d)
+        ins.append({"t": "LossyInterferometer", "m": None, "p": {"matrix": M.enc(T)}})
+    k = int(rng.integers(1, d))
+    mm = G.ordered_subset(rng, d, k)
+    ins.append({"t": "ParticleNumberMeasurement", "m": mm, "p": {}})
+    rest = [m for m in range(d) if m not in mm]
+    if rng.random() < 0.35 and rest:
+        ins.append({"t": "Phaseshifter", "m": [rest[0]], "p": {"phi": 0.4}, "when": "x[0] > 0"})
+        ins.append({"t": "ParticleNumberMeasurement", "m": rest, "p": {}})
+    return {"sim": "passive", "d": d, "config": cfg, "ins": ins, "shots": int(rng.choice([2, 3, 5, 8, 13, 40])), "variant": variant}
+
+
 def plan(tier, seed):
     n = 15 if tier == "quick" else 16
     return [{"name": "s%d" % i, "shard": i, "programs": 70 if tier == "quick" else 900,
@@ -442,6 +478,11 @@ def run_shard(spec):
             ctx.obs.add("shard stopped by time budget after %d programs" % i)
             break
         sim = sims[(i + int(spec["shard"])) % len(sims)]
+        if i % 7 == 5:
+            doc = passive_projected_marginal(rng)
+            ctx.c["passive_projected_marginal_programs"] = ctx.c.get("passive_projected_marginal_programs", 0) + 1
+            run_doc(ctx, pq, doc)
+            continue
         if i % 3 == 2 and sim in ("purefock", "ffock", "passive"):
             joint_vs_sequential(ctx, pq, rng, sim)
             continue
